@@ -698,6 +698,7 @@ func TestVerifC13(t *testing.T) {
 	if only == "" || only == "ep" {
 		c13RunEp(t, stats)
 		c13RunEpConcurrent(t, stats)
+		c13RunEpLock(t, stats)
 	}
 	if only == "" || only == "seq" {
 		c13RunTrk(t, stats)
